@@ -74,7 +74,7 @@ func c05GenStr(t *rapid.T, label string) c05Str {
 
 func c05Gen(t *rapid.T) c05Case {
 	var c c05Case
-	c.Align = rapid.SampledFrom([]uint32{0, 0, 1, 2, 4, 8, 16, 32, 64, 256}).Draw(t, "align")
+	c.Align = rapid.SampledFrom([]uint32{0, 0, 1, 2, 4, 8, 16, 32, 64, 256, 24, 40, 96, 12, 7, 100}).Draw(t, "align")
 	nkv := rapid.IntRange(0, 8).Draw(t, "nkv")
 	seen := map[string]bool{"general.alignment": true, "general.parameter_count": true}
 	for i := 0; i < nkv; i++ {
@@ -306,6 +306,62 @@ func c05Run(c c05Case) (info c05Info, err error) {
 	for k := range got {
 		if _, ok := kv[k]; !ok && k != "general.parameter_count" {
 			return info, fmt.Errorf("key %q invented", k)
+		}
+	}
+	// the same file under a collect limit (0 = the default of 1024, what the server and create use; or the size of one
+	// of the arrays, or a small number): an array of at most that many elements decodes to the same values, a longer one
+	// to its size only; everything else is as without a limit
+	limits := []int{0, 5}
+	for _, w := range kv {
+		switch a := w.(type) {
+		case []int32:
+			limits = append(limits, len(a))
+		case []string:
+			limits = append(limits, len(a))
+		}
+	}
+	for _, lim := range limits[:min(len(limits), 4)] {
+		eff := lim
+		if eff == 0 {
+			eff = 1024
+		}
+		ml, endl, lerr := Decode(bytes.NewReader(file), lim)
+		if lerr != nil {
+			return info, fmt.Errorf("Decode(limit %d) of written file: %v", lim, lerr)
+		}
+		if endl != end {
+			return info, fmt.Errorf("Decode(limit %d) reports end offset %d, Decode(-1) %d", lim, endl, end)
+		}
+		gl := ml.KV()
+		for k, w := range kv {
+			d, ok := gl[k]
+			if !ok {
+				return info, fmt.Errorf("limit %d: key %q lost", lim, k)
+			}
+			n := -1
+			switch a := w.(type) {
+			case []int32:
+				n = len(a)
+			case []uint32:
+				n = len(a)
+			case []float32:
+				n = len(a)
+			case []string:
+				n = len(a)
+			}
+			if n > eff {
+				a, ok := d.(*array)
+				if !ok || a.size != n || len(a.values) != 0 {
+					return info, fmt.Errorf("limit %d: key %q (array of %d) decoded to %T size/values %v, want size only", lim, k, n, d, d)
+				}
+				continue
+			}
+			if n == eff {
+				info.classes = append(info.classes, "array_exactly_at_collect_limit")
+			}
+			if err := c05Same(w, d); err != nil {
+				return info, fmt.Errorf("limit %d: key %q: %v", lim, k, err)
+			}
 		}
 	}
 	// tensors both directions
